@@ -33,6 +33,10 @@ MODULES = {
 }
 
 
+# formats whose published form carries a literal prefix (IMO 1234567, GRID:A1-...): the spec strips it itself
+PREFIXED = {'stdnum.imo', 'stdnum.grid'}
+
+
 def _helpers(I):
     """the shared inputs of the specs: registry tables, country lists, the ISO 7064 algorithms (by their contracts)"""
     import stdnum.isin
@@ -119,6 +123,9 @@ def _relational(arg):
         except Raise as r:
             del I.fnstack[mark:]
             return (r1, ('reject', 'compact raises'), None)
+        if modname in PREFIXED and ctx.primary is not None:
+            # the spec handles the written prefix itself: it gets the separator-free upper-case text, not compact()'s result
+            c = ctx.primary
         extra = []
         if specname == 'iban':
             extra = [h['structure'], h['mod97']]
@@ -204,6 +211,9 @@ def native_disagreement(modname, x):
     rv = call_real(modname + ':validate', [x], vopts)
     try:
         c = mod.compact(x, convert=False) if modname == 'stdnum.isbn' else mod.compact(x)
+        if modname in PREFIXED:
+            from stdnum.util import clean
+            c = clean(x, ' -' if modname == 'stdnum.grid' else ' ').strip().upper()
     except Exception:      # noqa: B902
         c = None
     import stdnum.isin
